@@ -256,6 +256,8 @@ impl WalManager {
 
         // Rotate if needed
         if needs_rotation {
+            #[cfg(grafeo_verif)]
+            grafeo_common::verif::yield_point("wal.log.after_append");
             self.rotate()?;
         }
 
@@ -372,6 +374,9 @@ impl WalManager {
             path: new_path,
             sequence: new_sequence,
         };
+
+        #[cfg(grafeo_verif)]
+        grafeo_common::verif::yield_point("wal.rotate.after_sequence");
 
         // Replace active log
         let mut guard = self.active_log.lock();
